@@ -139,7 +139,28 @@ def axiom_allowed(a):
     return a in ALLOWED_AXIOMS or a.startswith(ALLOWED_PREFIXES)
 
 
-def check_obligations(ctx, props_file, extra=()):
+def check_obligations(ctx, props_files, extra=()):
+    """props_files: one name or a list of names (e.g. a stdlib-style and a mathcomp-style file)"""
+    if isinstance(props_files, str):
+        props_files = [props_files]
+    agg = None
+    for i, pf in enumerate(props_files):
+        r = check_obligations_one(ctx, pf, extra if i == 0 else ())
+        if agg is None:
+            agg = r
+        else:
+            agg["obligations"] += r["obligations"]
+            agg["discharged"] += r["discharged"]
+            agg["theorems"].update(r["theorems"])
+            agg["checker_cmd"] += " ; " + r["checker_cmd"]
+            agg["trusted_base"] = agg["trusted_base"] + [t for t in r["trusted_base"] if t not in agg["trusted_base"]]
+            agg["coq_wall_s"] = agg.get("coq_wall_s", 0) + r.get("coq_wall_s", 0)
+            if "build_error" in r:
+                agg["build_error"] = r["build_error"]
+    return agg
+
+
+def check_obligations_one(ctx, props_file, extra=()):
     """compile theories/<props_file>.v (after its dependencies) and read Print Assumptions.
     returns dict for the evidence file; records failures in ctx."""
     t0 = time.time()
